@@ -65,6 +65,9 @@ func verifC29Structure(pool *headersPool) (key string, msg string) {
 	perShard := map[uint32]int{}
 	for shard, byNonce := range cache.headersNonceCache {
 		for nonce, list := range byNonce {
+			if len(list.items) == 0 {
+				return "C29:nonce-listed-without-header", fmt.Sprintf("shard %d: the shard/nonce index has an entry for nonce %d that holds no header", shard, nonce)
+			}
 			for _, it := range list.items {
 				if _, dup := listed[string(it.headerHash)]; dup {
 					return "C29:hash-listed-twice", fmt.Sprintf("hash %s is listed twice in the shard/nonce index", it.headerHash)
@@ -140,11 +143,22 @@ func verifC29Audit(pool *headersPool, universe []*verifC29Hdr) (key string, msg 
 	total := 0
 	for _, s := range append([]uint32{verifC29NeverSeenShard}, verifC29Shards...) {
 		sum := 0
+		seenNonce := map[uint64]bool{}
 		for _, n := range pool.Nonces(s) {
-			hdrs, _, err := pool.GetHeadersByNonceAndShardId(n, s)
-			if err == nil {
-				sum += len(hdrs)
+			if seenNonce[n] {
+				return "C29:nonces-differ", fmt.Sprintf("shard %d: Nonces() lists nonce %d twice", s, n), nil
 			}
+			seenNonce[n] = true
+			hdrs, hashes, err := pool.GetHeadersByNonceAndShardId(n, s)
+			if err != nil || len(hdrs) == 0 {
+				return "C29:nonce-listed-without-header", fmt.Sprintf("shard %d: Nonces() lists nonce %d but no header is found under that shard and nonce (err=%v)", s, n, err), nil
+			}
+			for _, h := range hashes {
+				if _, errHash := pool.GetHeaderByHash(h); errHash != nil {
+					return "C29:by-hash-vs-listed", fmt.Sprintf("shard %d nonce %d lists hash %s which is not found by hash", s, n, h), nil
+				}
+			}
+			sum += len(hdrs)
 		}
 		num := pool.GetNumHeaders(s)
 		if num != sum || num != foundPerShard[s] {
@@ -189,7 +203,7 @@ func TestVerifC29_Seq(t *testing.T) {
 			evictions := 0
 			hdrGen := rapid.SampledFrom(universe)
 			shardGen := rapid.SampledFrom([]uint32{0, 1, core.MetachainShardId, verifC29NeverSeenShard})
-			nonceGen := rapid.Uint64Range(0, 6)
+			nonceGen := rapid.Uint64Range(0, 8) // 7, 8: nonces no header has (the sync code asks the pool for nonces that have not arrived yet)
 
 			// reconcile after each step, white box: headers of the model that vanished were evicted
 			reconcile := func() {
@@ -313,6 +327,11 @@ func TestVerifC29_Seq(t *testing.T) {
 							c.Violation("C29:nonces-differ", "Nonces(%d)=%v misses nonce %d; %s", s, nonces, n, describe())
 						}
 					}
+					for n := range got {
+						if !wantNonces[n] {
+							c.Violation("C29:nonce-listed-without-header", "Nonces(%d)=%v lists nonce %d under which no header is stored; %s", s, nonces, n, describe())
+						}
+					}
 				},
 				"Audit": func(t *rapid.T) {
 					key, msg, present := verifC29Audit(pool, universe)
@@ -391,7 +410,7 @@ func verifC29GenOps(rt *rapid.T, universe []*verifC29Hdr, readerOnly bool) []ver
 				kind = verifC29OpNonces
 			}
 		}
-		op := verifC29Op{kind: kind, hdr: rapid.SampledFrom(universe).Draw(rt, "hdr"), nonce: rapid.Uint64Range(0, 6).Draw(rt, "nonce")}
+		op := verifC29Op{kind: kind, hdr: rapid.SampledFrom(universe).Draw(rt, "hdr"), nonce: rapid.Uint64Range(0, 8).Draw(rt, "nonce")}
 		// shard for lookups: known shards, the never-seen shard 7, and other shards never added (8..40)
 		switch rapid.IntRange(0, 3).Draw(rt, "shardKind") {
 		case 0:
@@ -510,6 +529,14 @@ func TestVerifC29_Regress(t *testing.T) {
 		pool.AddHeader(h.hash, h.hdr)
 	}
 	pool.RemoveHeaderByHash(u[8].hash)
+	// lookups / removals of nonces the (known) shard does not hold must leave no trace in the shard/nonce index
+	_, _, _ = pool.GetHeadersByNonceAndShardId(8, 0)
+	pool.RemoveHeaderByNonceAndShardId(7, 0)
+	for _, n := range pool.Nonces(0) {
+		if hdrs, _, errGet := pool.GetHeadersByNonceAndShardId(n, 0); errGet != nil || len(hdrs) == 0 {
+			kit.FailPlain(t, "C29", "C29:nonce-listed-without-header", "Nonces(0) lists nonce %d which holds no header", n)
+		}
+	}
 	if key, msg := verifC29Structure(pool); key != "" {
 		kit.FailPlain(t, "C29", key, "%s", msg)
 	}
